@@ -11,6 +11,7 @@ import (
 	"sync"
 	"testing"
 	"testing/synctest"
+	"time"
 
 	"github.com/Shopify/sarama"
 	"github.com/Shopify/sarama/mocks"
@@ -167,6 +168,7 @@ type prodObs struct {
 	Hang    string
 	Panic   string
 	trace   []string
+	onChk   func(exp int) // called at the start of every checker (overlap family: the first one is held there)
 }
 
 func (o *prodObs) logf(f string, a ...interface{}) {
@@ -309,23 +311,37 @@ type expecter interface { // the expectation API shared (modulo names) by both p
 
 type asyncExp struct{ p *mocks.AsyncProducer }
 
-func (a asyncExp) succeed()                                  { a.p.ExpectInputAndSucceed() }
-func (a asyncExp) fail(e error)                              { a.p.ExpectInputAndFail(e) }
-func (a asyncExp) msgChkSucceed(f mocks.MessageChecker)      { a.p.ExpectInputWithMessageCheckerFunctionAndSucceed(f) }
-func (a asyncExp) msgChkFail(f mocks.MessageChecker, e error) { a.p.ExpectInputWithMessageCheckerFunctionAndFail(f, e) }
-func (a asyncExp) valChkSucceed(f mocks.ValueChecker)        { a.p.ExpectInputWithCheckerFunctionAndSucceed(f) }
-func (a asyncExp) valChkFail(f mocks.ValueChecker, e error)  { a.p.ExpectInputWithCheckerFunctionAndFail(f, e) }
+func (a asyncExp) succeed()     { a.p.ExpectInputAndSucceed() }
+func (a asyncExp) fail(e error) { a.p.ExpectInputAndFail(e) }
+func (a asyncExp) msgChkSucceed(f mocks.MessageChecker) {
+	a.p.ExpectInputWithMessageCheckerFunctionAndSucceed(f)
+}
+func (a asyncExp) msgChkFail(f mocks.MessageChecker, e error) {
+	a.p.ExpectInputWithMessageCheckerFunctionAndFail(f, e)
+}
+func (a asyncExp) valChkSucceed(f mocks.ValueChecker) {
+	a.p.ExpectInputWithCheckerFunctionAndSucceed(f)
+}
+func (a asyncExp) valChkFail(f mocks.ValueChecker, e error) {
+	a.p.ExpectInputWithCheckerFunctionAndFail(f, e)
+}
 
 type syncExp struct{ p *mocks.SyncProducer }
 
-func (a syncExp) succeed()                             { a.p.ExpectSendMessageAndSucceed() }
-func (a syncExp) fail(e error)                         { a.p.ExpectSendMessageAndFail(e) }
-func (a syncExp) msgChkSucceed(f mocks.MessageChecker) { a.p.ExpectSendMessageWithMessageCheckerFunctionAndSucceed(f) }
+func (a syncExp) succeed()     { a.p.ExpectSendMessageAndSucceed() }
+func (a syncExp) fail(e error) { a.p.ExpectSendMessageAndFail(e) }
+func (a syncExp) msgChkSucceed(f mocks.MessageChecker) {
+	a.p.ExpectSendMessageWithMessageCheckerFunctionAndSucceed(f)
+}
 func (a syncExp) msgChkFail(f mocks.MessageChecker, e error) {
 	a.p.ExpectSendMessageWithMessageCheckerFunctionAndFail(f, e)
 }
-func (a syncExp) valChkSucceed(f mocks.ValueChecker)       { a.p.ExpectSendMessageWithCheckerFunctionAndSucceed(f) }
-func (a syncExp) valChkFail(f mocks.ValueChecker, e error) { a.p.ExpectSendMessageWithCheckerFunctionAndFail(f, e) }
+func (a syncExp) valChkSucceed(f mocks.ValueChecker) {
+	a.p.ExpectSendMessageWithCheckerFunctionAndSucceed(f)
+}
+func (a syncExp) valChkFail(f mocks.ValueChecker, e error) {
+	a.p.ExpectSendMessageWithCheckerFunctionAndFail(f, e)
+}
 
 func indexOf(msgs []*sarama.ProducerMessage, m *sarama.ProducerMessage) int {
 	for i, x := range msgs {
@@ -345,6 +361,9 @@ func installScript(c *Case, x expecter, errs *errSet, msgs []*sarama.ProducerMes
 			verdict = errs.chk[j]
 		}
 		mc := func(m *sarama.ProducerMessage) error {
+			if o.onChk != nil {
+				o.onChk(j)
+			}
 			o.mu.Lock()
 			o.Chk = append(o.Chk, chkObs{Exp: j, Msg: indexOf(msgs, m), Part: m.Partition})
 			o.mu.Unlock()
@@ -352,6 +371,9 @@ func installScript(c *Case, x expecter, errs *errSet, msgs []*sarama.ProducerMes
 			return verdict
 		}
 		vc := func(val []byte) error {
+			if o.onChk != nil {
+				o.onChk(j)
+			}
 			i, err := strconv.Atoi(strings.TrimPrefix(string(val), "v"))
 			if err != nil {
 				i = -1
@@ -499,6 +521,76 @@ func execSync(c *Case, errs *errSet, msgs []*sarama.ProducerMessage, calls []ref
 	if err := sp.Close(); err != nil {
 		o.logf("Close returned %v", err)
 	}
+	for _, m := range msgs {
+		o.MsgPart = append(o.MsgPart, m.Partition)
+		o.MsgOff = append(o.MsgOff, m.Offset)
+	}
+	return o
+}
+
+// execSyncOverlap: SendMessage(m0) is held inside the checker of the first expectation while SendMessage(m1) is issued
+// from a second goroutine; then the first is let go. The observations are recorded per message, as execSync does.
+func execSyncOverlap(t *testing.T, c *Case, errs *errSet, msgs []*sarama.ProducerMessage) (o *prodObs) {
+	// (no synctest bubble: the mocks use the real sync.Mutex, and a goroutine waiting for a mutex is not "durably
+	// blocked" for synctest.Wait. Real time is used one-sidedly: with the mock's lock held during the checker the second
+	// call waits however long the pause is, so the unchanged code gives the same observations at any speed.)
+	o = &prodObs{}
+	rec := &recorder{}
+	o.Calls = make([]callObs, 2)
+	finished := make(chan struct{})
+	go func() {
+		defer close(finished)
+		defer func() {
+			if r := recover(); r != nil {
+				o.Panic = fmt.Sprintf("%v\n%s", r, debug.Stack())
+			}
+		}()
+		sp := mocks.NewSyncProducer(rec, newConfig(c))
+		applyTC(sp, c.TC)
+		inChk := make(chan struct{})
+		release := make(chan struct{})
+		first := true
+		o.onChk = func(exp int) {
+			o.mu.Lock()
+			hold := first && exp == 0
+			first = false
+			o.mu.Unlock()
+			if hold {
+				close(inChk)
+				<-release
+			}
+		}
+		installScript(c, syncExp{sp}, errs, msgs, o)
+		done := make(chan int, 2)
+		send := func(i int) {
+			p, off, err := sp.SendMessage(msgs[i])
+			o.mu.Lock()
+			o.Calls[i] = callObs{Part: p, Off: off, Err: err}
+			o.mu.Unlock()
+			o.logf("SendMessage(message %d) = partition %d, offset %d, err %v", i, p, off, err)
+			done <- i
+		}
+		go send(0)
+		<-inChk
+		o.logf("call 0 is inside the checker of expectation 0; issuing call 1")
+		go send(1)
+		time.Sleep(30 * time.Millisecond) // call 1 is now waiting for the mock's lock (or, wrongly, went ahead)
+		close(release)
+		<-done
+		<-done
+		if err := sp.Close(); err != nil {
+			o.logf("Close returned %v", err)
+		}
+	}()
+	select {
+	case <-finished:
+	case <-time.After(10 * time.Second):
+		o.Hang = "the two overlapping SendMessage calls and Close did not finish within 10 s"
+	}
+	o.mu.Lock()
+	o.onChk = nil
+	o.mu.Unlock()
+	o.Reports = rec.snapshot()
 	for _, m := range msgs {
 		o.MsgPart = append(o.MsgPart, m.Partition)
 		o.MsgOff = append(o.MsgOff, m.Offset)
